@@ -638,6 +638,12 @@ def path_values(p, term):
             rhs = c[1] if st['k'] == 'BinaryOperator' else (c[2] if len(c) > 2 else None)
             if isinstance(lhs, dict) and lhs.get('k') == 'DeclRefExpr' and lhs.get('local') and rhs is not None:
                 out[lhs.get('ref')] = term(rhs)
+        elif st.get('k') in ('CompoundAssignOperator', 'CXXOperatorCallExpr') and st.get('op') == '+=':
+            c = st.get('c') or []
+            lhs = c[0] if st['k'] == 'CompoundAssignOperator' else (c[1] if len(c) > 2 else None)
+            rhs = c[1] if st['k'] == 'CompoundAssignOperator' else (c[2] if len(c) > 2 else None)
+            if isinstance(lhs, dict) and lhs.get('k') == 'DeclRefExpr' and lhs.get('local') and rhs is not None and lhs.get('ref') in out:
+                out[lhs['ref']] = ('+', out[lhs['ref']], term(rhs))        # what has been appended / added so far
     return out
 
 
